@@ -81,6 +81,7 @@ class Obligation:
         self.cls = "?"  # G | D | R | T | BAD
         self.detail = ""
         self.helper = False  # CRS-valued parameters (guard helper candidate)
+        self.silent = False  # untyped guard helper: usable as a guarding callee, never reported itself
 
 
 def _is_valueerror(prog: Program, exc: Optional[ast.AST], fi: FuncInfo) -> bool:
@@ -165,7 +166,59 @@ def discover(prog: Program) -> Tuple[List[Obligation], Dict[str, FuncInfo]]:
             ob = Obligation(fi, crs_ops, None, "helper over CRS values")
             ob.helper = True
             obligations.append(ob)
+        else:
+            ob2 = _untyped_guard_helper(fi)
+            if ob2 is not None:
+                obligations.append(ob2)
     return obligations, wrappers
+
+
+def _untyped_guard_helper(fi: FuncInfo) -> Optional[Obligation]:
+    """`def _require_same_crs(first, rest)`: no annotation says the parameters are CRS-tagged, but the body compares
+    `<param>.crs` with `<other param or element of it>.crs` and raises.  Such a function is analysed like any other
+    (it guards only if every normal exit is behind the comparison) but is never reported itself: it exists to be
+    *used* as a guarding callee (a guard extracted into a helper)."""
+    if not any(isinstance(n, ast.Raise) for n in walk_own(fi.node)):
+        return None
+    params = set(fi.param_names())
+    org = Origins(fi)
+    scal: List[str] = []
+    streams: List[str] = []
+    found = False
+    for n in walk_own(fi.node):
+        if not (isinstance(n, ast.Compare) and len(n.ops) == 1 and isinstance(n.ops[0], (ast.Eq, ast.NotEq))):
+            continue
+        sides = [n.left, n.comparators[0]]
+        if not all(isinstance(s_, ast.Attribute) and s_.attr in ("crs", "_crs") and isinstance(s_.value, (ast.Name, ast.Subscript)) for s_ in sides):
+            continue
+        for s_ in sides:
+            base = s_.value  # type: ignore[attr-defined]
+            if isinstance(base, ast.Subscript):
+                for r, _ in org.origin(base.value):
+                    if r in params and r not in streams:
+                        streams.append(r)
+                continue
+            if base.id in params and base.id not in org.defs:
+                if base.id not in scal:
+                    scal.append(base.id)
+                continue
+            for kind, v in org.defs.get(base.id, []):
+                one_of = kind == "elem" or (isinstance(v, ast.Subscript) and not isinstance(v.slice, ast.Slice))
+                for r, _ in org.origin(v):
+                    if r not in params:
+                        continue
+                    if one_of:
+                        if r not in streams:
+                            streams.append(r)
+                    elif r not in scal:
+                        scal.append(r)
+        found = True
+    scal = [x for x in scal if x not in streams]
+    if not found or not (len(scal) >= 2 or streams):
+        return None
+    ob = Obligation(fi, scal, streams[0] if streams else None, "untyped CRS guard helper (compares .crs of its parameters and raises)")
+    ob.silent = True
+    return ob
 
 
 class _Analysis:
@@ -305,6 +358,11 @@ class _Analysis:
                 for kind, v in self.org.defs.get(n.id, []):
                     if kind == "elem" and self.ob.stream in self.org.roots(v):
                         return True
+                    # first = stream[0]
+                    if kind == "val" and isinstance(v, ast.Subscript) and not isinstance(v.slice, ast.Slice) and self.ob.stream in self.org.roots(v.value):
+                        return True
+            if isinstance(n, ast.Subscript) and not isinstance(n.slice, ast.Slice) and self.ob.stream in self.org.roots(n.value):
+                return True
         return False
 
     def guarding_call(self, c: ast.Call) -> Optional[FrozenSet[str]]:
@@ -516,7 +574,7 @@ def rule_crsguard(prog: Program, modules: Optional[Set[str]] = None, must_guard:
     out: List[Instance] = []
     for ob in obligations:
         fi = ob.fi
-        if ob.helper:
+        if ob.helper or ob.silent:
             continue
         if modules is not None and fi.mod.name not in modules:
             continue
